@@ -75,6 +75,78 @@ def _mk_solver(pc, extra, timeout_ms):
 
 QUICK_MS = int(os.environ.get("PYVC_QUICK_MS", "4000"))
 
+_str_cache = {}
+_sym_cache = {}
+
+
+def _symbols(f):
+    """names of the uninterpreted constants / functions occurring in a formula"""
+    k = f.get_id()
+    if k in _sym_cache:
+        return _sym_cache[k]
+    out = set()
+    stack = [f]
+    seen = set()
+    while stack:
+        e = stack.pop()
+        if e.get_id() in seen:
+            continue
+        seen.add(e.get_id())
+        if z3.is_quantifier(e):
+            stack.append(e.body())
+            continue
+        if z3.is_app(e) and e.decl().kind() == z3.Z3_OP_UNINTERPRETED:
+            out.add(e.decl().name())
+        stack.extend(e.children())
+    _sym_cache[k] = out
+    return out
+
+
+def _slices(pc, sub):
+    """premise slices tried before the full query (dropping premises is sound for `unsat`)"""
+    gs = _symbols(sub)
+    a = [f for f in pc if _symbols(f) <= gs]
+    if len(a) < len(pc):
+        yield "goal-symbols", a
+    b = [f for f in pc if _symbols(f) & gs]
+    if len(a) < len(b) < len(pc):
+        yield "one-step", b
+    if not _mentions_strings(sub):
+        c = [f for f in pc if not _mentions_strings(f)]
+        if len(c) < len(pc):
+            yield "string-free", c
+
+
+def _mentions_strings(f):
+    """does the formula contain a term of a sequence sort? (premise slicing: z3's sequence solver stalls on
+    queries whose goal does not need the string facts at all)"""
+    k = f.get_id()
+    if k in _str_cache:
+        return _str_cache[k]
+    stack = [f]
+    seen = set()
+    r = False
+    while stack:
+        e = stack.pop()
+        if e.get_id() in seen:
+            continue
+        seen.add(e.get_id())
+        try:
+            if z3.is_quantifier(e):
+                stack.append(e.body())
+                continue
+            if e.sort().kind() in (z3.Z3_SEQ_SORT, z3.Z3_RE_SORT):
+                r = True
+                break
+            if e.sort().kind() == z3.Z3_ARRAY_SORT and e.sort().range().kind() == z3.Z3_SEQ_SORT:
+                r = True
+                break
+        except Exception:
+            pass
+        stack.extend(e.children())
+    _str_cache[k] = r
+    return r
+
 
 def _solve(pc, goal, timeout_ms, expect):
     """portfolio: z3 API (short budget) -> cvc5 binary -> z3 4.8 binary -> z3 API (full budget).
@@ -87,9 +159,27 @@ def _solve(pc, goal, timeout_ms, expect):
     backend = "z3-5.1(api)"
     last = None
     for sub in split_goal(goal):
+        done = False
+        for sname, sliced in _slices(pc, sub):
+            ts = time.time()
+            s = _mk_solver(sliced, z3.Not(sub), min(1500, timeout_ms))
+            rs = str(s.check())
+            if os.environ.get("PYVC_DEBUG2"):
+                print("         slice %-12s %d/%d premises -> %s %.0fms   goal=%s" % (
+                    sname, len(sliced), len(pc), rs, (time.time() - ts) * 1000, str(sub)[:80].replace("\n", " ")))
+            if rs == "unsat":
+                last = s
+                done = True
+                break
+        if done:
+            continue
         s = _mk_solver(pc, z3.Not(sub), min(QUICK_MS, timeout_ms))
         last = s
         r = str(s.check())
+        if os.environ.get("PYVC_DUMP") and r == "unknown":
+            os.makedirs(os.environ["PYVC_DUMP"], exist_ok=True)
+            with open(os.path.join(os.environ["PYVC_DUMP"], "sub_%d.smt2" % int(time.time() * 1000 % 10**8)), "w") as fh:
+                fh.write(s.to_smt2())
         if r == "unknown":
             fr, be = _fallback(s, max(5, timeout_ms // 1000))
             if fr is not None:
@@ -180,7 +270,7 @@ def watch_terms(ev, env, ghosts, maxlist=8):
     return watch
 
 
-def verify_contract(contract: Contract, registry: Registry, timeout_ms=30000, log=None):
+def verify_contract(contract: Contract, registry: Registry, timeout_ms=30000, log=None, refute=None):
     """returns dict(results=[ObResult...], paths=int, undecided_paths=[reasons], sha=...)"""
     t_start = time.time()
     fdef = source.find_def(contract.file, contract.qualname)
@@ -210,6 +300,8 @@ def verify_contract(contract: Contract, registry: Registry, timeout_ms=30000, lo
         solver, r, ms, be = _solve(ob.pc, ob.goal, tmo, ob.expect)
         if be != "z3-5.1(api)":
             res.backend = be
+        if os.environ.get("PYVC_DEBUG"):
+            print("      %-45s #%d %-8s %7.0fms %s" % (ob.name, res.instances, r, ms, be))
         if os.environ.get("PYVC_DUMP"):
             os.makedirs(os.environ["PYVC_DUMP"], exist_ok=True)
             fn = os.path.join(os.environ["PYVC_DUMP"], "%s.%d.%s.smt2" % (ob.name.replace("/", "_"), res.instances, r))
@@ -256,6 +348,10 @@ def verify_contract(contract: Contract, registry: Registry, timeout_ms=30000, lo
             undecided_paths.append("path limit %d reached" % MAX_PATHS)
             break
         run = Run(script, None)
+        if refute is not None:
+            run.refute = True
+            run.bound = refute.get("bound", 2)
+            run.unroll = refute.get("unroll", 4)
         st = State(run)
         st.old_ghost = {}
         frame = Frame(contract, contract.file, contract.cls, {}, fn=fdef)
@@ -284,6 +380,8 @@ def verify_contract(contract: Contract, registry: Registry, timeout_ms=30000, lo
             st.old_ghost = dict(st.ghost)
             frame.old_env = dict(frame.env)
             watch = watch_terms(ev, frame.old_env, st.old_ghost)
+            if contract.watch_extra is not None:
+                watch.update(contract.watch_extra(ev))
             if not reach_done:
                 reach_done = True
                 st.oblige(contract.id + "/reach.requires", z3.BoolVal(True), expect="sat",
@@ -305,9 +403,12 @@ def verify_contract(contract: Contract, registry: Registry, timeout_ms=30000, lo
                 for name, text in contract.ensures.items():
                     f = spec_eval(ev, text, extra, frame=eframe)
                     st.oblige("%s/ens.%s" % (contract.id, name), f, note=text)
-                for name, text in contract.canaries.items():
-                    f = spec_eval(ev, text, extra, frame=eframe)
-                    st.oblige("%s/canary.%s" % (contract.id, name), f, expect="sat", note=text)
+                if refute is not None:
+                    # canaries (deliberately false clauses) are decided by the bounded refuter only: a model
+                    # of a quantified query is not something the unbounded provers return reliably
+                    for name, text in contract.canaries.items():
+                        f = spec_eval(ev, text, extra, frame=eframe)
+                        st.oblige("%s/canary.%s" % (contract.id, name), z3.Not(f), expect="sat", note=text)
                 if contract.frame_check:
                     frame_obligations(ev, contract, frame.old_env)
             else:
@@ -359,6 +460,7 @@ def verify_contract(contract: Contract, registry: Registry, timeout_ms=30000, lo
         "paths": n_paths, "undecided_paths": sorted(set(undecided_paths)),
         "results": [r.to_json() for r in results.values()],
         "solver_ms": solver_ms, "wall_s": time.time() - t_start, "outcomes": outcomes,
+        "mode": "prove" if refute is None else "refute(bound=%d,unroll=%d)" % (refute.get("bound", 2), refute.get("unroll", 4)),
     }
     return out
 
